@@ -115,10 +115,13 @@ def main(tier, seed):
                       for c, r in list(zip(rest_cases, res1))[30:32]]
 
     def rec(c, r, kind):
-        return dict(kind=kind, label=c['label'], acceptor=c['acceptor'], ops=pd.short_ops(c['ops']), result=pd.summary(r))
+        return pd.replayable(dict(kind=kind, label=c['label'], acceptor=c['acceptor'], ops=pd.short_ops(c['ops']),
+                                  result=pd.summary(r)), c, oracle=current_oracle[0])
+    current_oracle = [None]
     for cases, results, failing, oracle in ((rest_cases, res1, f1, 'rest'), (stop_cases, res2, f2, None),
                                             (silent_cases, res3, f3, 'silent')):
         bad = set(failing['spec']) | (set(failing[oracle]) if oracle else set())
+        current_oracle[0] = oracle
         for i in sorted(bad):
             chk = ('spec', 'c05_spec') if i in set(failing['spec']) else \
                 {'rest': ('rest', 'ends_at_rest'), 'silent': ('silent', 'silence_ok')}[oracle]
@@ -135,6 +138,9 @@ def main(tier, seed):
 
 
 def replay(rec):
-    print(rec.get('label'), rec.get('ops'))
-    print('recorded:', rec.get('result'))
-    return 0
+    checks = [('corr', 'prov_corr'), ('spec', 'c05_spec')]
+    if rec.get('replay_oracle') == 'rest':
+        checks.append(('rest', 'ends_at_rest'))
+    elif rec.get('replay_oracle') == 'silent':
+        checks.append(('silent', 'silence_ok'))
+    return pd.replay_case('C13', rec, checks)
